@@ -143,7 +143,10 @@ pub fn check_case(c: &Case) -> CaseResult {
     let out = match emit(&mut m) {
         Ok(o) => o,
         Err(f) => {
-            r.violations.push(Violation::new("C10", format!("dwarf-{}", f.signature()), f.detail(), c));
+            // a panic on an input whose line sequence spans several functions is a case of its own (D14):
+            // the same assertion firing on per-function sequences is something else
+            let sig = if o.one_sequence { format!("dwarf-{}", f.signature()).replacen("dwarf-emit-panic:", "dwarf-emit-panic:sequence-spanning-functions:", 1) } else { format!("dwarf-{}", f.signature()) };
+            r.violations.push(Violation::new("C10", sig, f.detail(), c));
             return r;
         }
     };
@@ -454,6 +457,23 @@ pub fn cases(args: &Args) -> Vec<Case> {
                         }
                     }
                 }
+            }
+        }
+    }
+    // inputs whose bodies hold operators walrus never keeps (dead code after br / return / unreachable, inside
+    // and outside of ifs): each of them has a row in the input; in the output it has none, or a tombstoned one
+    {
+        let ms = wgen::families::ctrl_family(args.tier.g());
+        let picked: Vec<&wgen::Member> = ms.iter().filter(|m| m.coords.starts_with("dead-if-in-live-if") || m.coords.starts_with("if-exits")).collect();
+        let step = if thorough { 1 } else { 3 };
+        for m in picked.iter().step_by(step) {
+            for edit in ["none", "gc"] {
+                out.push(Case {
+                    family: "dwarf".into(),
+                    coords: format!("ctrl: {}", m.coords),
+                    wasm: m.wasm.clone(),
+                    cfg: json!({"version": 4, "file_index": 0, "one_sequence": false, "low_pc": "body", "edit": edit, "range_form": "offset"}),
+                });
             }
         }
     }
